@@ -2,7 +2,7 @@
 
 package code_test
 
-// C08, part 1: the packages. A generated module (library `c08/lib` that declares the symbols,
+// C08, part 1: the packages. A generated module, type-checked in-process (library `c08/lib` that declares the symbols,
 // `c08/mid` that re-exports them through aliases / embedding / constructors, and one client package
 // per call or reference form of the property), the hand-written std-library forms, the loader for the
 // repository's own testdata packages (loaded the way analysis/lint/testutil does), and the small
@@ -11,6 +11,10 @@ package code_test
 import (
 	"fmt"
 	"go/ast"
+	"go/importer"
+	"go/parser"
+	"go/token"
+	"go/types"
 	"os"
 	"os/exec"
 	"path/filepath"
@@ -18,6 +22,7 @@ import (
 	"sort"
 	"strings"
 	"sync"
+	"time"
 
 	"golang.org/x/tools/go/analysis"
 	"golang.org/x/tools/go/packages"
@@ -374,62 +379,92 @@ const c8LoadMode = packages.NeedName | packages.NeedFiles | packages.NeedCompile
 
 const c8Mod = "c08"
 
-// c8WriteWorld writes the generated module and returns its directory.
-func c8WriteWorld() (string, error) {
-	dir := filepath.Join(vx.ScratchDir(), "c08world")
-	files := map[string]string{
-		"go.mod":           "module " + c8Mod + "\n\ngo 1.26.0\n",
-		"lib/lib.go":       c8LibSrc,
-		"mid/mid.go":       c8MidSrc,
-		"stdmid/stdmid.go": c8StdMid,
-	}
-	for _, c := range c8Clients {
-		files[c.name+"/x.go"] = c8ClientSource(c, c8Mod)
-	}
-	for _, c := range c8StdClients {
-		files[c.name+"/x.go"] = c8ClientSource(c, c8Mod)
-	}
-	for name, src := range files {
-		p := filepath.Join(dir, name)
-		if err := os.MkdirAll(filepath.Dir(p), 0o755); err != nil {
-			return "", err
-		}
-		if err := os.WriteFile(p, []byte(src), 0o644); err != nil {
-			return "", err
-		}
-	}
-	return dir, nil
-}
+type c8ImporterFunc func(path string) (*types.Package, error)
 
-// c8LoadWorld loads the generated module. Every package must type-check (anything else is a harness
-// error, reported by the caller as such). lib itself is not analysed: it declares the symbols.
+func (f c8ImporterFunc) Import(path string) (*types.Package, error) { return f(path) }
+
+var c8WorldTimings string
+
+// c8LoadWorld type-checks the generated module in-process: the generated packages in dependency order
+// (lib, mid, stdmid, then the clients) with go/types, imports among them resolved to the packages just
+// checked and the few std imports resolved by the standard "source" importer (std type-checked from
+// GOROOT/src). No go command is involved, so the step costs a few CPU seconds even on a busy machine.
+// Every package must type-check (anything else is a harness error, reported by the caller as such).
+// lib itself is not analysed: it declares the symbols.
 func c8LoadWorld() ([]*c8Pkg, error) {
-	dir, err := c8WriteWorld()
-	if err != nil {
-		return nil, err
-	}
-	cfg := &packages.Config{Mode: c8LoadMode, Dir: dir, Env: c8Env()}
-	pkgs, err := packages.Load(cfg, "./...")
-	if err != nil {
-		return nil, err
+	t0 := time.Now()
+	defer func() { c8WorldTimings += fmt.Sprintf(" total=%.1fs", time.Since(t0).Seconds()) }()
+	fset := token.NewFileSet()
+	std := importer.ForCompiler(fset, "source", nil)
+	local := map[string]*types.Package{}
+	imp := c8ImporterFunc(func(path string) (*types.Package, error) {
+		if p, ok := local[path]; ok {
+			return p, nil
+		}
+		if strings.HasPrefix(path, c8Mod+"/") {
+			return nil, fmt.Errorf("generated package %s imported before it was checked", path)
+		}
+		return std.Import(path)
+	})
+	sizes := types.SizesFor("gc", "amd64")
+	root := filepath.Join(vx.ScratchDir(), "c08world")
+	check := func(name, src string) (*packages.Package, error) {
+		path := c8Mod + "/" + name
+		f, err := parser.ParseFile(fset, filepath.Join(root, name, "x.go"), src, parser.AllErrors|parser.ParseComments)
+		if err != nil {
+			return nil, fmt.Errorf("generated package %s does not parse: %v", path, err)
+		}
+		info := &types.Info{
+			Types:        map[ast.Expr]types.TypeAndValue{},
+			Defs:         map[*ast.Ident]types.Object{},
+			Uses:         map[*ast.Ident]types.Object{},
+			Implicits:    map[ast.Node]types.Object{},
+			Instances:    map[*ast.Ident]types.Instance{},
+			Scopes:       map[ast.Node]*types.Scope{},
+			Selections:   map[*ast.SelectorExpr]*types.Selection{},
+			FileVersions: map[*ast.File]string{},
+		}
+		conf := types.Config{Importer: imp, GoVersion: "go1.24", Sizes: sizes}
+		pkg, err := conf.Check(path, fset, []*ast.File{f}, info)
+		if err != nil {
+			return nil, fmt.Errorf("generated package %s does not type-check: %v", path, err)
+		}
+		local[path] = pkg
+		return &packages.Package{ID: path, Name: pkg.Name(), PkgPath: path, Fset: fset, Syntax: []*ast.File{f},
+			Types: pkg, TypesInfo: info, TypesSizes: sizes}, nil
 	}
 	var out []*c8Pkg
-	for _, p := range pkgs {
-		if len(p.Errors) > 0 || p.IllTyped {
-			return nil, fmt.Errorf("generated package %s does not type-check: %v", p.PkgPath, p.Errors)
+	add := func(name, src string, analysed bool) error {
+		p, err := check(name, src)
+		if err != nil {
+			return err
 		}
-		if p.PkgPath == c8Mod+"/lib" {
-			continue
+		if !analysed {
+			return nil
 		}
 		pass, err := c8BuildPass(p)
 		if err != nil {
-			return nil, err
+			return err
 		}
-		out = append(out, &c8Pkg{Name: "gen:" + strings.TrimPrefix(p.PkgPath, c8Mod+"/"), Pass: pass, Nodes: c8CollectNodes(p.Syntax)})
+		out = append(out, &c8Pkg{Name: "gen:" + name, Pass: pass, Nodes: c8CollectNodes(p.Syntax)})
+		return nil
 	}
-	want := len(c8Clients) + len(c8StdClients) + 2
-	if len(out) != want {
-		return nil, fmt.Errorf("generated module: %d packages loaded, %d written", len(out), want)
+	if err := add("lib", c8LibSrc, false); err != nil {
+		return nil, err
+	}
+	if err := add("mid", c8MidSrc, true); err != nil {
+		return nil, err
+	}
+	if err := add("stdmid", c8StdMid, true); err != nil {
+		return nil, err
+	}
+	c8WorldTimings += fmt.Sprintf(" lib+mid+stdmid(std from source)=%.1fs", time.Since(t0).Seconds())
+	for _, list := range [][]c8Client{c8Clients, c8StdClients} {
+		for _, c := range list {
+			if err := add(c.name, c8ClientSource(c, c8Mod), true); err != nil {
+				return nil, err
+			}
+		}
 	}
 	sort.Slice(out, func(i, j int) bool { return out[i].Name < out[j].Name })
 	return out, nil
